@@ -4,7 +4,7 @@ from decimal import Decimal
 from .. import tlc, common
 
 SCALE = 10 ** 4
-STARTS = [0, 10000, 5000, 1000, 22500, 100000, 1003000]                       # 0, 1, .5, .1, 2.25, 10, 100.3
+STARTS = [0, 10000, 5000, 1000, 22500, 100000, 1003000, 0 - 10000, 0 - 5000, 0 - 3000]     # 0, 1, .5, .1, 2.25, 10, 100.3, -1, -.5, -.3
 # a wide lattice of start times for the grid function alone (cheap): every tenth in 0..100, some hundredths and thousandths
 WIDE_STARTS = [k * 1000 for k in range(0, 1001)] + [k * 100 + 50 for k in range(0, 1000, 7)] + [80500, 46250, 99990, 640100, 20201000]
 DTS = [10000, 20000, 5000, 2500, 1250, 625, 1000, 2000, 500, 200, 100, 3000, 7000]   # 1, 2, .5, .25, .125, .0625, .1, .2, .05, .02, .01, .3, .7
